@@ -151,7 +151,7 @@ def cond_pv(v, attr):
 def _walk_vis(d, out):
     def cls(c):
         out.append((c.get("vis"), c["attr"], "class"))
-        for t in c["tests"]:
+        for t in c["tests"] + inherited_tests(c):
             out.append((t.get("vis"), t["attr"], "test"))
         for x in c["subs"]:
             cls(x)
@@ -337,6 +337,8 @@ def gen_cls(rng, attr, depth, uniq, dunder=True):
     _assign_pos(rng, c["tests"], c["subs"])
     if rng.random() < 0.3:
         c["bases"], c["own_props"] = gen_bases(rng, c)
+        if rng.random() < 0.4:
+            gen_inherited(rng, c, uniq)
     return c
 
 
@@ -386,13 +388,29 @@ def gen_bases(rng, c):
     return bases, own
 
 
+INH_ATTRS = ["inh_check", "base_smoke", "zz_inherited", "aa_inherited"]
+
+
+def gen_inherited(rng, c, uniq):
+    """test methods the suite class INHERITS from its first base class (a plain class): they are members of the suite like its
+    own, declared (= decorated) before the class body"""
+    b = c["bases"][rng.randrange(len(c["bases"]))]
+    b["tests"] = [gen_test(rng, a, uniq) for a in rng.sample(INH_ATTRS, rng.choice([1, 1, 2]))]
+    for i, t in enumerate(b["tests"]):
+        t["pos"] = i
+
+
+def inherited_tests(c):
+    return [t for b in c.get("bases") or [] for t in b.get("tests") or []]
+
+
 def mro_of(c):
     """the class dicts that hold properties / plain attributes, in MRO order (the class itself first; C3 linearisation of the
     generated shapes: every base is a chain of its own, so the MRO is depth-first, left to right): list of (depth-label, props, attrs)"""
     out = [("own", list(c.get("own_props") or []), ["some_attribute", "helper"])]
 
     def walk(b, label):
-        out.append((label, list(b["props"]), list(b["attrs"])))
+        out.append((label, list(b["props"]), list(b["attrs"]) + ["=" + t["attr"] for t in b.get("tests") or []]))
         for i, u in enumerate(b["up"]):
             walk(u, label + ".up%d" % i)
     for i, b in enumerate(c.get("bases") or []):
@@ -763,6 +781,9 @@ def with_ranks(layout, entry="dir", pick=None):
                 cls(it)
 
     def cls(c):
+        # the base classes stand in front of the class statement: their decorated methods are numbered first
+        for b in c.get("bases") or []:
+            body(b.get("tests") or [], [])
         body(c["tests"], c["subs"])
         c["rank"] = nxt() if c.get("xrank") is None else c["xrank"]
 
@@ -788,7 +809,7 @@ def with_ranks(layout, entry="dir", pick=None):
 
             def z(c):
                 c.setdefault("rank", 0)
-                for t in c["tests"]:
+                for t in c["tests"] + inherited_tests(c):
                     t.setdefault("rank", 0)
                 for s in c["subs"]:
                     z(s)
@@ -1039,7 +1060,8 @@ def _base_src(b, name, ind):
         lines.append(inner + ("%s = lcc.inject_fixture('fixt_%s')" % (a, a) if a == "api" else "%s = 30" % a))
     for pr in b["props"]:
         lines += _prop_src(pr, inner)
-    if not b["attrs"] and not b["props"]:
+    lines += _body_src(b.get("tests") or [], [], inner, True)
+    if not b["attrs"] and not b["props"] and not b.get("tests"):
         lines.append(inner + "pass")
     lines.append("")
     return lines
